@@ -9,6 +9,10 @@ claimed = {
    text="Proof: every obligation generated from the current SSA of stringValueRuntime.Eval and GetInfix is discharged: slice/index safety for all strings, GetInfix = text between the first '{{' and the first '}}' after it (found iff both exist), loop invariant 'the scanned text is always a suffix of the literal' (substituted text is never scanned), strict decrease of the unscanned rest (termination), one-iteration rule ret' = ret ++ text-before-marker ++ replacement, result = accumulated output ++ unscanned rest, raw strings returned untouched.",
    note="Assumed: SMT string theory models Go strings; extern contract of strings.Index; evaluation interface frame (Eval does not modify existing AST nodes/tokens: confinement of AST writes to package parser is checked, freshness of the parser's own writes is assumed). Not decided: what the replacement text is (result of the oracle evaluation of the expression); escape decoding in the lexer.",
    ref="DESIGN.md §8 C14"),
+ "C17": dict(
+   text="Proof: isSubpath returns exactly inside(root, sub) (relative path exists, is not '..' and does not start with '../'); in FileImportLocator.Resolve the only file-system call is ioutil.ReadFile (every static callee in os/io/ioutil/net is compared with the allowed list), its argument is the cleaned join of root and path and inside(root, argument) holds on every path reaching it; an error yields the empty text; importRuntime.Eval performs no file-system call of its own.",
+   note="Assumed (trusted externs): filepath.Rel/Clean/Join are lexical (modelled as uninterpreted functions; 'rel does not begin with ..' is read as 'lies lexically inside root'), fmt.Sprintf of string operands concatenates, os.PathSeparator is '/'. Not decided: byte-for-byte equality of returned text and file content; symbolic links.",
+   ref="DESIGN.md §8 C17"),
 }
 NA_DEFAULT = "not yet claimed: contracts for this property are still being built (DESIGN.md §8); no other technique is substituted"
 na = {}
